@@ -404,6 +404,15 @@ def run_unit(udesc, tier="quick", timeout_ms=None, known=None):
         out["reason"] = str(e)
         if os.environ.get("VERIF_DEBUG"):
             out["reason"] += "\n" + "".join(traceback.format_exception(type(e), e, e.__traceback__))[-2500:]
+        # the code left the verifier's subset on this tree.  If the unit declared a scenario replay (one that does not
+        # need a counter-model), the checker runs it on the real code: a failing replay is a failing input, i.e. a
+        # violation; a passing replay leaves the unit undecided
+        dr = getattr(holder.get("h"), "default_replay", None)
+        if dr is not None:
+            try:
+                out["undecided_replay_spec"] = dr(lambda t: None)
+            except Exception:  # the constructor needs a model: no scenario replay
+                pass
         out["wall_s"] = round(time.time() - t0, 3)
         return out
     except Exception as e:  # checker crash
@@ -457,6 +466,18 @@ def run_unit(udesc, tier="quick", timeout_ms=None, known=None):
             if ax:
                 ob.pc = list(ob.pc) + ax
             res = discharge(list(ob.pc) + [z3.Not(ob.goal)], timeout_ms, both=both)
+            if res["verdict"] == "sat" and ob.meta.get("replay_decides") and ob.meta.get("replay") is not None:
+                # the clause is a SUFFICIENT condition chosen by the contract (stronger than the property's wording): a
+                # counter-model of it is not yet a counter-example of the property -- the replay on the real code decides
+                # (violation iff it fails, undecided otherwise)
+                amodel = res.get("model")
+                rec["generalised"] = "sufficient condition only: " + str(ob.meta.get("replay_decides"))
+                try:
+                    rec["replay_spec"] = ob.meta["replay"](lambda t: _eval_model(amodel, to_term(t)) if amodel is not None else None)
+                    rec["abstract_model"] = _model_repr(amodel, syms) if amodel is not None else None
+                except Exception as e:
+                    rec["replay_error"] = repr(e)
+                res = dict(res, verdict="unknown", note="counter-model of a sufficient condition; the replay on the real code decides")
             if res["verdict"] == "sat" and ob.meta.get("orig") is not None:
                 # a counter-model of a GENERALISED obligation (nonlinear terms abstracted) is not a counter-model of the
                 # obligation itself: ask again without the abstraction; only a model of the original refutes
